@@ -47,6 +47,7 @@ type act struct {
 	asLabel   string
 	asKEK     []byte
 	sKey      []byte // SNwkSIntKey of the running session (rejoin 0/2 MIC)
+	receiver  string // non-empty: ReceiverID text (an EUI64 other than the JoinEUI of the frame, audit finding 3)
 	padMethod int    // with padTotal > 0: the request document is padded to that many bytes (req.padTo)
 	padTotal  int
 }
@@ -197,6 +198,9 @@ func (g *G) request(a *act) *req {
 	if a.txid == 0 && g.r.Bool() {
 		r.omit["TransactionID"] = true
 	}
+	if a.receiver != "" {
+		r.receiver = a.receiver
+	}
 	if a.padTotal > 0 {
 		r.padTo(a.padMethod, a.padTotal)
 	}
@@ -277,12 +281,19 @@ func (g *G) activation(a *act, kind string) {
 
 func (g *G) activationOn(h http.Handler, t *table, a *act, kind, prefix string, extra map[string]interface{}) {
 	r := g.request(a)
-	if a.kind == kJoin || a.dls&0x80 == 0 {
-		in := a.intent()
-		if a.kind != kJoin {
-			in = "INone" // rejoin answered with OptNeg unset: outside what the property fixes (notes/C16.md)
-		}
-		g.runOn(h, t, r, in, kind, prefix+a.describe(), extra)
+	if a.kind == kJoin {
+		g.runOn(h, t, r, a.intent(), kind, prefix+a.describe(), extra)
+		return
+	}
+	if a.dls&0x80 == 0 {
+		// rejoin answered with OptNeg unset (known finding C16-3): Success with a join-accept MIC that is neither
+		// the 1.0 nor the 1.1 form.  One case under the finding's own key.
+		body := r.body()
+		ans := send(h, body)
+		rp := map[string]interface{}{"api": "joinserver.NewHandler(config).ServeHTTP (POST body)", "body": r.replayBody(body), "config": t.replay(), "observed": ans.summary(), "intent": a.intent()}
+		g.configIntact(t, prefix+a.describe(), rp)
+		g.s.Add(cases.Case{Term: fmt.Sprintf("CReq %s %s %s %s PNoKeys", t.coq(), r.coq(), ans.coq(), a.intent()),
+			Key: fmt.Sprintf("%srejoin:optneg=false:join-accept-mic:type=%d:dev=%x:nonce=%d", prefix, a.reqtype(), a.dev.devEUI, a.devNonce), Kind: kind + "-optneg-unset", Nontrivial: true, Replay: rp})
 		return
 	}
 	body := r.body()
